@@ -112,6 +112,29 @@ def run_sim(mode, grid, seed, M=None, I=None, vol=2.0):
         return ("raise", type(e).__name__, str(e)[:300])
 
 
+def perturb_generator(burn):
+    """Use bioscrape's generator in a few different ways (an odd number of draws of each kind).  After py_seed_random
+    none of this may matter: a seeded result that depends on what was drawn before the seeding is hidden state that
+    survives seeding."""
+    import bioscrape.random as br
+    for kind, n in burn:
+        for _ in range(n):
+            if kind == "normal":
+                br.py_normal_rv(0.0, 1.0)
+            elif kind == "uniform":
+                br.py_uniform_rv()
+            elif kind == "exponential":
+                br.py_exponential_rv(2.0)
+            elif kind == "gamma":
+                br.py_gamma_rv(2.5, 1.0)
+            elif kind == "erlang":
+                br.py_erlang_rv(2.0, 1.0)
+            elif kind == "binomial":
+                br.py_binom_rnd_f(7.0, 0.4)
+            elif kind == "randint":
+                br.py_rand_int()
+
+
 def by_name(out, M):
     """Result of a simulation through an interface (bare array) keyed by the species names of model M."""
     if "__array__" not in out:
@@ -178,6 +201,18 @@ def dicts_ok(res, M, D, dummy_before, where):
 
 
 def check(case):
+    if case.get("kind") == "_repeat":
+        # replay form of a case whose verdict varied between executions in one process: run it several times
+        last = None
+        for _ in range(int(case.get("times", 8))):
+            last = _check(case["case"])
+            if last.fails:
+                return last
+        return last
+    return _check(case)
+
+
+def _check(case):
     from bioscrape.types import Model
     from bioscrape.simulator import ModelCSimInterface, SafeModelCSimInterface
     from bioscrape.random import py_seed_random
@@ -356,6 +391,12 @@ def check(case):
             diff = same_outcome(again, got, exact=True)
             if diff is not None:
                 res.fail(("not_repeatable", mode), difference=diff)
+                break
+            perturb_generator(case.get("burn") or [["normal", 1], ["uniform", 1]])
+            third = run_sim(mode, grid, seed, M=M)
+            diff = same_outcome(third, got, exact=True)
+            if diff is not None:
+                res.fail(("seeded_result_depends_on_earlier_draws", mode), difference=diff, burn=case.get("burn"))
                 break
             with specmod.quiet():
                 try:
@@ -549,7 +590,10 @@ def cases(draw, max_extra):
     nfinal = draw(st.integers(2, 4))
     final_modes = draw(st.lists(st.sampled_from(MODES), min_size=nfinal, max_size=nfinal, unique=True))
     perm = list(draw(st.permutations(list(range(len(all_species)))))) if draw(st.booleans()) else None
-    return {"kind": "history", "start": {"species": start_species, "init": draw(st.booleans())}, "ops": ops,
+    burn = [[k, draw(st.sampled_from([1, 1, 3]))] for k in
+            draw(st.lists(st.sampled_from(["normal", "normal", "uniform", "exponential", "gamma", "erlang", "binomial",
+                                           "randint"]), min_size=1, max_size=3, unique=True))]
+    return {"kind": "history", "burn": burn, "start": {"species": start_species, "init": draw(st.booleans())}, "ops": ops,
             "final_grid": grid, "final_seed": draw(st.integers(1, 2 ** 40)), "final_modes": final_modes, "perm": perm}
 
 
